@@ -16,7 +16,8 @@ const SUFFIX = { include: '.wxml', import: '.wxml', wxs: '.wxs' }
 function rels(maxDirs) {
   const out = []
   const rec = (cur, depth) => {
-    for (const lead of ['', '/']) for (const name of ['t', 'a']) out.push(lead + [...cur, name].join('/'))
+    // (the last segment may itself be a dot segment: the reference then names a directory-like path)
+    for (const lead of ['', '/']) for (const name of ['t', 'a', '.', '..']) { if ((name === '.' || name === '..') && cur.length === 0 && lead === '/') continue; out.push(lead + [...cur, name].join('/')) }
     if (depth === maxDirs) return
     for (const s of SEGS) rec([...cur, s], depth + 1)
   }
@@ -69,7 +70,8 @@ function permutations(n, limit) {
 
 function buildCase(kind, base, rel, sufVariant) {
   const suffix = SUFFIX[kind]
-  const spelled = rel + (sufVariant === 1 ? suffix : sufVariant === 2 ? suffix + 'x' : '')
+  // 0: no suffix; 1: the optional suffix; 2: a decoy suffix; 3: the suffix twice (exactly one is optional: the target's own name ends in the suffix)
+  const spelled = rel + (sufVariant === 1 ? suffix : sufVariant === 2 ? suffix + 'x' : sufVariant === 3 ? suffix + suffix : '')
   const ref = refResolve(base, spelled, suffix)
   const target = ref.path
   const files = []
@@ -115,7 +117,8 @@ function allCases(thorough) {
   const out = []
   for (const c of precedenceCases()) out.push(c)
   const R = rels(thorough ? 3 : 2)
-  for (const kind of ['include', 'import', 'wxs']) for (const base of BASES) for (const rel of R) for (const sv of [0, 1, 2]) {
+  for (const kind of ['include', 'import', 'wxs']) for (const base of BASES) for (const rel of R) for (const sv of [0, 1, 2, 3]) {
+    if (sv !== 0 && (rel.endsWith('.') )) continue // a dot segment takes no suffix
     const c = buildCase(kind, base, rel, sv)
     if (c.target === '' || c.target === c.base) continue
     out.push(c)
